@@ -468,4 +468,14 @@ def rule_pumps(ctx):
     rp(ctx, 'C01.n')
 
 
-RULES = [('C01.a', rule_a), ('C01.b', rule_b), ('C01.c', rule_c), ('C01.d', rule_e), ('C01.e', rule_f), ('C01.f', rule_g), ('C06.e', rule_h), ('C06.a', rule_i), ('C01.g', rule_j), ('C01.h', rule_k), ('C01.i+C02.e+C17.c+C05.g+C01.j', rule_l), ('C05.a+C05.f+C03.b+C03.c+C03.f', rule_d), ('C01.m', rule_balancer), ('C01.n', rule_pumps)]
+
+def rule_dead_responders_silenced(ctx):
+    """(shared C11.c)  Each caller receives only the response its own request produced - also across a reconnect, where
+    stream ids start again: the responders of the lost connection are silenced by the close loop (dispose() cancels
+    the handler's future / publisher unconditionally), otherwise a future resolved late answers the new connection's
+    request that happens to carry the same id (rules/c11.py)."""
+    from .c11 import rule_c as c11c
+    c11c(ctx)
+
+
+RULES = [('C01.a', rule_a), ('C01.b', rule_b), ('C01.c', rule_c), ('C01.d', rule_e), ('C01.e', rule_f), ('C01.f', rule_g), ('C06.e', rule_h), ('C06.a', rule_i), ('C01.g', rule_j), ('C01.h', rule_k), ('C01.i+C02.e+C17.c+C05.g+C01.j', rule_l), ('C05.a+C05.f+C03.b+C03.c+C03.f', rule_d), ('C01.m', rule_balancer), ('C01.n', rule_pumps), ('C11.c', rule_dead_responders_silenced)]
